@@ -1339,6 +1339,423 @@ Section Zipper.
     - apply down_step_decr.
     - apply down_weight_lt_fuel.
   Qed.
+  (* ------------------------------------------------------------------ *)
+  (* P6 (outer loop)                                                      *)
+  (* ------------------------------------------------------------------ *)
+  (* Every op that shift_up pushes behind the pointer (a swapped Delete /
+     Insert, or an Equal created or grown by a slide) can be passed again on
+     the way down: [Pass tg inn P] for the pushed stack P. *)
+  Fixpoint Pass (tg : tag) (inn : nat) (P : list op) : Prop :=
+    match P with
+    | [] => True
+    | x :: P' =>
+        match tg, x with
+        | TInsert, Delete _ _ _ => Pass tg inn P'
+        | TInsert, Equal xo _ xl => SegEq cmp xo inn xl /\ Pass tg (inn + xl) P'
+        | TDelete, Insert _ _ _ => Pass tg inn P'
+        | _, _ => False
+        end
+    end.
+
+  Lemma Pass_ext tg inn inn' P : inn = inn' -> Pass tg inn P -> Pass tg inn' P.
+  Proof. intros ->. exact (fun H => H). Qed.
+
+  Lemma Pass_delete_any inn inn' P : Pass TDelete inn P -> Pass TDelete inn' P.
+  Proof.
+    revert inn inn'. induction P as [|x P0 IH]; intros inn inn' H; cbn [Pass] in *; [exact I|].
+    destruct x; try contradiction. eapply IH; exact H.
+  Qed.
+
+  Definition nE (x : op) : nat := match x with Equal _ _ _ => 0 | _ => 1 end.
+  Fixpoint netot (l : list op) : nat := match l with [] => 0 | x :: r => nE x + netot r end.
+  Definition nonEq (z : zipper) : nat := netot (zbef z) + nE (zthis z) + netot (zaft z).
+
+  Lemma netot_app a c : netot (a ++ c) = netot a + netot c.
+  Proof. induction a as [|x a IH]; cbn [app netot]; [reflexivity|rewrite IH; lia]. Qed.
+  Lemma netot_le_length l : netot l <= length l.
+  Proof. induction l as [|x r IH]; cbn [netot length]; [lia|]. destruct x; cbn [nE]; lia. Qed.
+  Lemma netot_push_ne_equal o n l r : netot (push_ne (Equal o n l) r) = netot r.
+  Proof. unfold push_ne. destruct (op_is_empty (Equal o n l)); reflexivity. Qed.
+  Lemma length_push_ne x r : length (push_ne x r) <= S (length r).
+  Proof. unfold push_ne. destruct (op_is_empty x); cbn [length]; lia. Qed.
+
+  Lemma swap_pair_ID_shape io inn il dO dl dn :
+    exists io' dn', swap_pair (Insert io inn il) (Delete dO dl dn) = (Insert io' inn il, Delete dO dl dn').
+  Proof. unfold swap_pair. destruct repair; cbn [repair_pair]; eexists; eexists; reflexivity. Qed.
+  Lemma swap_pair_DI_shape io inn il dO dl dn :
+    exists io' dn', swap_pair (Delete dO dl dn) (Insert io inn il) = (Delete dO dl dn', Insert io' inn il).
+  Proof. unfold swap_pair. destruct repair; cbn [repair_pair]; eexists; eexists; reflexivity. Qed.
+
+  (* the bookkeeping invariant of one shift_up run started with L ops behind
+     the pointer and K non-Equal ops in total *)
+  Definition UpInv (K L : nat) (z : zipper) : Prop :=
+    exists P rest,
+      zaft z = P ++ rest /\
+      Pass (op_tag (zthis z)) (op_new_start (zthis z)) P /\
+      Forall NonEmptyOp P /\
+      nonEq z <= K /\ (nonEq z < K \/ length rest = L).
+
+  Lemma UpInv_reset K L z : nonEq z < K -> UpInv K L z.
+  Proof.
+    intros H. exists [], (zaft z). cbn [app Pass]. repeat split; auto; lia.
+  Qed.
+
+  Lemma up_step_upinv m D I K L z r :
+    ZInv m D I z -> UpInv K L z -> up_step cmp repair z = Ok r -> UpInv K L (zof r).
+  Proof.
+    intros Hz (P & rest & Haft & Hpass & HneP & HK & HL) Hstep.
+    destruct z as [[bef this] aft]. cbn [zaft zthis] in Haft, Hpass. subst aft.
+    destruct bef as [|prev bef'].
+    { cbn [up_step] in Hstep. injection Hstep as <-. exists P, rest. cbn [zof zaft zthis]. auto. }
+    destruct this as [to tn tl|to tl tn|to tn tl|to tol tn tnl];
+      [cbn [up_step op_tag] in Hstep; discriminate| | |exfalso; eapply ZInv_Replace_this; exact Hz];
+      (destruct prev as [po pn pl|po pl pn|po pn pl|po pol pn pnl];
+       [| | |exfalso; eapply ZInv_Replace_prev; exact Hz]).
+    - (* Delete / Equal *)
+      rewrite up_step_del_eq in Hstep. rewrite (ZInv_prev_nonempty _ _ _ _ _ _ _ Hz) in Hstep.
+      injection Hstep as <-. exists P, rest. cbn [zof zaft zthis]. auto.
+    - (* Delete / Delete: merge *)
+      cbn [up_step op_tag grow_right op_old_len] in Hstep. injection Hstep as <-. cbn [zof].
+      apply UpInv_reset. unfold nonEq in *. cbn [zbef zthis zaft netot nE] in *. lia.
+    - (* Delete / Insert: swap *)
+      cbn [up_step op_tag] in Hstep. fold (swap_pair (Delete to tl tn) (Insert po pn pl)) in Hstep.
+      destruct (swap_pair_DI_shape po pn pl to tl tn) as (io' & dn' & Esw). rewrite Esw in Hstep.
+      injection Hstep as <-. cbn [zof].
+      exists (Insert io' pn pl :: P), rest. cbn [zaft zthis op_tag op_new_start app Pass].
+      apply ZInv_iff in Hz. destruct Hz as (_ & _ & _ & _ & _ & Nb & _).
+      apply Forall_cons_iff in Nb. destruct Nb as [Nprev _].
+      cbn [op_tag] in Hpass.
+      repeat split; auto;
+        try (eapply Pass_delete_any; exact Hpass);
+        unfold nonEq in *; cbn [zbef zthis zaft netot nE] in *; lia.
+    - (* Insert / Equal: slide *)
+      rewrite up_step_ins_eq in Hstep.
+      apply bind_ok_inv in Hstep. destruct Hstep as (s & Hs & Hstep).
+      apply common_suffix_len_spec in Hs. destruct Hs as (Hs1 & Hs2 & _).
+      destruct (0 <? s) eqn:E0.
+      2:{ rewrite (ZInv_prev_nonempty _ _ _ _ _ _ _ Hz) in Hstep. injection Hstep as <-.
+          exists P, rest. cbn [zof zaft zthis]. auto. }
+      apply Nat.ltb_lt in E0.
+      apply bind_ok_inv in Hstep. destruct Hstep as (aft1 & Haft1 & Hstep).
+      apply bind_ok_inv in Hstep. destruct Hstep as (io' & Hio & Hstep).
+      apply bind_ok_inv in Hstep. destruct Hstep as (inn' & Hinn & Hstep).
+      apply bind_ok_inv in Hstep. destruct Hstep as (l' & Hl & Hstep).
+      apply sub_chk_inv in Hio. apply sub_chk_inv in Hinn. apply sub_chk_inv in Hl.
+      destruct Hio as [_ ->]. destruct Hinn as [Hinn ->]. destruct Hl as [_ ->].
+      injection Hstep as <-. cbn [zof].
+      apply ZInv_iff in Hz. destruct Hz as (Hb & Ht & Ha & _).
+      apply RSeg_cons in Hb. destruct Hb as (_ & -> & -> & Hseg).
+      cbn [OpOk otot ntot etot op_old_len op_new_len elen] in Ht, Ha.
+      destruct Ht as (-> & _).
+      cbn [op_tag op_new_start] in Hpass.
+      assert (Hsuf : SegEq cmp (os + otot bef' + pl - s) (ns + (pl + ntot bef') - s) s).
+      { apply (SegEq_sub cmp _ _ _ Hseg _ _ _ (pl - s)); lia. }
+      apply up_aft1_inv in Haft1.
+      destruct Haft1 as [(xo & xn & xl & aft' & Hshape & -> & _)|(-> & _)].
+      + destruct P as [|x P0]; cbn [app] in Hshape.
+        * (* the grown Equal belongs to rest *)
+          exists [], (Equal (xo - s) (xn - s) (xl + s) :: aft'). cbn [zaft zthis app Pass].
+          subst rest. repeat split; auto;
+            unfold nonEq in *; cbn [zbef zthis zaft nE netot app length] in *;
+            rewrite netot_push_ne_equal; lia.
+        * (* the grown Equal is the top of the pushed stack *)
+          injection Hshape as Hx0 Haft'. subst x aft'.
+          cbn [app Seg OpOk] in Ha. destruct Ha as ((Hxo & _ & _) & _).
+          cbn [Pass] in Hpass. destruct Hpass as [Hx Hp0].
+          apply Forall_cons_iff in HneP. destruct HneP as [Nx NP0]. cbn [NonEmptyOp] in Nx.
+          exists (Equal (xo - s) (xn - s) (xl + s) :: P0), rest.
+          cbn [zaft zthis app op_tag op_new_start Pass].
+          repeat split; auto;
+            try (apply (SegEq_join cmp _ _ _ _ _ _ Hsuf Hx); lia);
+            try (eapply Pass_ext; [|exact Hp0]; lia);
+            try (apply Forall_cons_iff; split; [cbn [NonEmptyOp]; lia|exact NP0]);
+            unfold nonEq in *; cbn [zbef zthis zaft nE netot app] in *; rewrite netot_push_ne_equal; lia.
+      + (* a new Equal is pushed *)
+        exists (Equal (os + otot bef' + pl - s) (ns + (pl + ntot bef') + tl - s) s :: P), rest.
+        cbn [zaft zthis app op_tag op_new_start Pass].
+        repeat split; auto;
+          try (eapply Pass_ext; [|exact Hpass]; lia);
+          try (apply Forall_cons_iff; split; [cbn [NonEmptyOp]; lia|exact HneP]);
+          unfold nonEq in *; cbn [zbef zthis zaft nE netot app] in *; rewrite netot_push_ne_equal; lia.
+    - (* Insert / Delete: swap *)
+      cbn [up_step op_tag] in Hstep. fold (swap_pair (Insert to tn tl) (Delete po pl pn)) in Hstep.
+      destruct (swap_pair_ID_shape to tn tl po pl pn) as (io' & dn' & Esw). rewrite Esw in Hstep.
+      injection Hstep as <-. cbn [zof].
+      exists (Delete po pl dn' :: P), rest. cbn [zaft zthis op_tag op_new_start app Pass].
+      apply ZInv_iff in Hz. destruct Hz as (_ & _ & _ & _ & _ & Nb & _).
+      apply Forall_cons_iff in Nb. destruct Nb as [Nprev _].
+      cbn [op_tag op_new_start] in Hpass.
+      repeat split; auto;
+        unfold nonEq in *; cbn [zbef zthis zaft netot nE] in *; lia.
+    - (* Insert / Insert: merge *)
+      cbn [up_step op_tag grow_right op_new_len] in Hstep. injection Hstep as <-. cbn [zof].
+      apply UpInv_reset. unfold nonEq in *. cbn [zbef zthis zaft netot nE] in *. lia.
+  Qed.
+
+  Lemma netot_down_bef1 X Y p bef : netot (down_bef1 X Y p bef) = netot bef.
+  Proof.
+    destruct (down_bef1_cases X Y p bef) as [(po & pn & pl & bef' & -> & ->)| ->]; reflexivity.
+  Qed.
+
+  (* a down step never lengthens the part behind the pointer and never
+     creates a non-Equal op *)
+  Lemma down_step_mono z r :
+    down_step cmp repair z = Ok r ->
+    length (zaft (zof r)) <= length (zaft z) /\ nonEq (zof r) <= nonEq z.
+  Proof.
+    intros Hstep. destruct z as [[bef this] aft].
+    destruct aft as [|next aft']; [cbn [down_step] in Hstep; injection Hstep as <-; cbn [zof]; lia|].
+    destruct this as [to tn tl|to tl tn|to tn tl|to tol tn tnl];
+      try (cbn [down_step op_tag] in Hstep; discriminate);
+      (destruct next as [xo xn xl|xo xl xn|xo xn xl|xo xol xn xnl];
+       try (cbn [down_step op_tag] in Hstep; discriminate)).
+    - rewrite down_step_del_eq in Hstep.
+      destruct (op_is_empty (Equal xo xn xl)); injection Hstep as <-;
+        unfold nonEq; cbn [zof zbef zthis zaft length netot nE]; lia.
+    - cbn [down_step op_tag grow_right] in Hstep. injection Hstep as <-.
+      unfold nonEq; cbn [zof zbef zthis zaft length netot nE]; lia.
+    - cbn [down_step op_tag] in Hstep. fold (swap_pair (Insert xo xn xl) (Delete to tl tn)) in Hstep.
+      destruct (swap_pair_ID_shape xo xn xl to tl tn) as (io' & dn' & Esw). rewrite Esw in Hstep.
+      injection Hstep as <-. unfold nonEq; cbn [zof zbef zthis zaft length netot nE]; lia.
+    - rewrite down_step_ins_eq in Hstep.
+      apply bind_ok_inv in Hstep. destruct Hstep as (p & _ & Hstep).
+      destruct (0 <? p).
+      + apply bind_ok_inv in Hstep. destruct Hstep as (l' & _ & Hstep).
+        injection Hstep as <-. unfold nonEq; cbn [zof zbef zthis zaft length netot nE].
+        rewrite netot_down_bef1, netot_push_ne_equal.
+        assert (Hlen := length_push_ne (Equal (xo + p) (xn + p) l') aft'). lia.
+      + destruct (op_is_empty (Equal xo xn xl)); injection Hstep as <-;
+          unfold nonEq; cbn [zof zbef zthis zaft length netot nE]; lia.
+    - cbn [down_step op_tag] in Hstep. fold (swap_pair (Delete xo xl xn) (Insert to tn tl)) in Hstep.
+      destruct (swap_pair_DI_shape to tn tl xo xl xn) as (io' & dn' & Esw). rewrite Esw in Hstep.
+      injection Hstep as <-. unfold nonEq; cbn [zof zbef zthis zaft length netot nE]; lia.
+    - cbn [down_step op_tag grow_right] in Hstep. injection Hstep as <-.
+      unfold nonEq; cbn [zof zbef zthis zaft length netot nE]; lia.
+  Qed.
+
+  Lemma down_run_mono fuel z zd :
+    run_steps (down_step cmp repair) fuel z = Ok zd ->
+    length (zaft zd) <= length (zaft z) /\ nonEq zd <= nonEq z.
+  Proof.
+    intros H.
+    apply (run_steps_inv (fun z' => length (zaft z') <= length (zaft z) /\ nonEq z' <= nonEq z)
+             (down_step cmp repair)) with (fuel := fuel) (z := z); [|lia|exact H].
+    intros z0 r [H1 H2] Hr. destruct (down_step_mono _ _ Hr) as [H3 H4]. lia.
+  Qed.
+
+  (* while the pushed stack is non-empty the down loop continues and consumes it *)
+  Lemma down_step_pass bef this x P0 rest r :
+    Pass (op_tag this) (op_new_start this) (x :: P0) ->
+    Forall NonEmptyOp (x :: P0) -> NonEmptyOp this -> is_di this ->
+    down_step cmp repair (bef, this, (x :: P0) ++ rest) = Ok r ->
+    exists z' P', r = Continue z' /\ zaft z' = P' ++ rest /\
+                  Pass (op_tag (zthis z')) (op_new_start (zthis z')) P' /\
+                  Forall NonEmptyOp P' /\ NonEmptyOp (zthis z') /\ is_di (zthis z').
+  Proof.
+    intros Hpass HneP Hnet Hdi Hstep. cbn [app] in Hstep.
+    apply Forall_cons_iff in HneP. destruct HneP as [Nx NP0].
+    destruct this as [to tn tl|to tl tn|to tn tl|to tol tn tnl]; try contradiction;
+      cbn [op_tag op_new_start Pass] in Hpass; destruct x as [xo xn xl|xo xl xn|xo xn xl|xo xol xn xnl];
+      try contradiction.
+    - (* Delete this, Insert next: swap *)
+      cbn [down_step op_tag] in Hstep. fold (swap_pair (Insert xo xn xl) (Delete to tl tn)) in Hstep.
+      destruct (swap_pair_ID_shape xo xn xl to tl tn) as (io' & dn' & Esw). rewrite Esw in Hstep.
+      injection Hstep as <-. eexists; exists P0. split; [reflexivity|].
+      cbn [zaft zthis op_tag op_new_start is_di NonEmptyOp] in *.
+      repeat split; auto. eapply Pass_delete_any; exact Hpass.
+    - (* Insert this, Equal next: slide by p > 0 *)
+      destruct Hpass as [Hx Hp0]. cbn [NonEmptyOp] in Nx, Hnet.
+      rewrite down_step_ins_eq in Hstep.
+      apply bind_ok_inv in Hstep. destruct Hstep as (p & Hp & Hstep).
+      apply common_prefix_len_spec in Hp. destruct Hp as (Hp1 & Hp2 & _ & Hstop).
+      assert (Hpos : 0 < p).
+      { destruct p as [|p']; [|lia]. exfalso.
+        specialize (Hstop ltac:(lia) ltac:(lia)). specialize (Hx 0 Nx).
+        rewrite Hx in Hstop. discriminate. }
+      apply Nat.ltb_lt in Hpos. rewrite Hpos in Hstep. apply Nat.ltb_lt in Hpos.
+      apply bind_ok_inv in Hstep. destruct Hstep as (l' & Hl & Hstep).
+      apply sub_chk_inv in Hl. destruct Hl as [Hle ->].
+      injection Hstep as <-. unfold push_ne.
+      destruct (op_is_empty (Equal (xo + p) (xn + p) (xl - p))) eqn:Ee.
+      + apply empty_op_true in Ee. cbn [op_old_len] in Ee. destruct Ee as [Ee _].
+        eexists; exists P0. split; [reflexivity|].
+        cbn [zaft zthis op_tag op_new_start is_di NonEmptyOp].
+        repeat split; auto. eapply Pass_ext; [|exact Hp0]. lia.
+      + apply empty_op_false in Ee; [|discriminate].
+        eexists; exists (Equal (xo + p) (xn + p) (xl - p) :: P0). split; [reflexivity|].
+        cbn [zaft zthis op_tag op_new_start is_di NonEmptyOp app Pass].
+        repeat split; auto.
+        * apply (SegEq_sub cmp _ _ _ Hx _ _ _ p); lia.
+        * eapply Pass_ext; [|exact Hp0]. cbn [NonEmptyOp] in Ee. lia.
+    - (* Insert this, Delete next: swap *)
+      cbn [down_step op_tag] in Hstep. fold (swap_pair (Delete xo xl xn) (Insert to tn tl)) in Hstep.
+      destruct (swap_pair_DI_shape to tn tl xo xl xn) as (io' & dn' & Esw). rewrite Esw in Hstep.
+      injection Hstep as <-. eexists; exists P0. split; [reflexivity|].
+      cbn [zaft zthis op_tag op_new_start is_di NonEmptyOp] in *.
+      repeat split; auto.
+  Qed.
+
+  Lemma down_run_pass : forall fuel z P rest zd,
+    zaft z = P ++ rest ->
+    Pass (op_tag (zthis z)) (op_new_start (zthis z)) P ->
+    Forall NonEmptyOp P -> NonEmptyOp (zthis z) -> is_di (zthis z) ->
+    run_steps (down_step cmp repair) fuel z = Ok zd ->
+    length (zaft zd) <= length rest.
+  Proof.
+    induction fuel as [|fuel IH]; intros z P rest zd Haft Hpass HneP Hnet Hdi Hrun; [discriminate|].
+    destruct P as [|x P0].
+    - cbn [app] in Haft. apply down_run_mono in Hrun. rewrite Haft in Hrun. lia.
+    - cbn [run_steps] in Hrun. apply bind_ok_inv in Hrun. destruct Hrun as (r & Hr & Hrun).
+      destruct z as [[bef this] aft]. cbn [zaft zthis] in *. subst aft.
+      destruct (down_step_pass _ _ _ _ _ _ Hpass HneP Hnet Hdi Hr)
+        as (z' & P' & -> & Haft' & Hpass' & HneP' & Hnet' & Hdi').
+      eapply IH; eassumption.
+  Qed.
+
+  (* one shift_up ; shift_down round: either a merge happened (fewer non-Equal
+     ops) or the part behind the pointer did not get longer *)
+  Lemma shift_round_measure m D I z zu zd :
+    compat m -> ZInv m D I z -> is_di (zthis z) ->
+    shift_up cmp repair z = Ok zu -> shift_down cmp repair zu = Ok zd ->
+    nonEq zd <= nonEq z /\ (nonEq zd < nonEq z \/ length (zaft zd) <= length (zaft z)).
+  Proof.
+    intros Hc Hz Hdi Hu Hd.
+    assert (Hup : (ZInv m D I zu /\ is_di (zthis zu)) /\ UpInv (nonEq z) (length (zaft z)) zu).
+    { unfold shift_up in Hu.
+      apply (run_steps_inv (fun z' => (ZInv m D I z' /\ is_di (zthis z')) /\
+                                       UpInv (nonEq z) (length (zaft z)) z')
+               (up_step cmp repair)) with (fuel := inner_fuel z) (z := z); [| |exact Hu].
+      - intros z0 r [[Hz0 Hdi0] Hu0] Hr. split; [split|].
+        + eapply up_step_inv; eassumption.
+        + eapply is_di_tag; [apply up_step_tag; exact Hr|exact Hdi0].
+        + eapply up_step_upinv; eassumption.
+      - split; [split; assumption|]. exists [], (zaft z). cbn [app Pass].
+        repeat split; auto. }
+    destruct Hup as [[Hzu Hdiu] (P & rest & Haft & Hpass & HneP & HK & HL)].
+    assert (Hnet : NonEmptyOp (zthis zu)).
+    { destruct zu as [[bu tu] au]. apply ZInv_iff in Hzu. cbn [zthis]. apply Hzu. }
+    unfold shift_down in Hd.
+    assert (H1 := down_run_pass _ _ _ _ _ Haft Hpass HneP Hnet Hdiu Hd).
+    destruct (down_run_mono _ _ _ Hd) as [_ H2].
+    split; [lia|]. destruct HL as [HL|HL]; [left; lia|right; lia].
+  Qed.
+
+  (* ---- the outer loop ---- *)
+  Lemma length_le_items l : Forall NonEmptyOp l -> length l <= otot l + ntot l.
+  Proof.
+    induction 1 as [|x r Hx _ IH]; cbn [length otot ntot]; [lia|].
+    destruct x; cbn [NonEmptyOp op_old_len op_new_len] in *; lia.
+  Qed.
+
+  Lemma ops_weight_items l : ops_weight l = length l + otot l + ntot l.
+  Proof. induction l as [|x r IH]; [reflexivity|]. rewrite ops_weight_cons, IH. cbn [length otot ntot]. lia. Qed.
+
+  Definition items : nat := (oe - os) + (ne - ns).
+
+  Lemma LInv_length m D I l : LInv m D I l -> length l <= items.
+  Proof.
+    intros ((_ & Ho & Hn) & Hne & _). apply length_le_items in Hne. unfold items. lia.
+  Qed.
+
+  Lemma ZInv_bounds m D I z : ZInv m D I z -> length (zaft z) <= items /\ nonEq z <= items.
+  Proof.
+    intros Hz. apply LInv_length in Hz. destruct z as [[bef this] aft].
+    cbn [zlist] in Hz. rewrite app_length, rev_length in Hz. cbn [length] in Hz.
+    unfold nonEq. cbn [zaft zbef zthis].
+    assert (H1 := netot_le_length bef). assert (H2 := netot_le_length aft).
+    assert (H3 : nE this <= 1) by (destruct this; cbn [nE]; lia). lia.
+  Qed.
+
+  Definition outer_measure (z : zipper) : nat := nonEq z * S items + length (zaft z).
+
+  Lemma pass_terminates m D I t :
+    compat m ->
+    (forall z, ZInv m D I z -> is_di (zthis z) -> shift_up cmp repair z <> OutOfFuel) ->
+    (forall z, ZInv m D I z -> is_di (zthis z) -> shift_down cmp repair z <> OutOfFuel) ->
+    forall fuel z, ZInv m D I z -> outer_measure z < fuel -> pass cmp repair t fuel z <> OutOfFuel.
+  Proof.
+    intros Hc Hup Hdown. induction fuel as [|fuel IH]; intros z Hz HM; [lia|].
+    assert (Htail : forall z1, ZInv m D I z1 -> outer_measure z1 < S fuel ->
+              match zaft z1 with
+              | [] => Ok (rev (zthis z1 :: zbef z1))
+              | nx :: aft' => pass cmp repair t fuel (zthis z1 :: zbef z1, nx, aft')
+              end <> OutOfFuel).
+    { intros [[b1 t1] a1] Hz1 HM1. cbn [zaft zthis zbef].
+      destruct a1 as [|nx a1']; [discriminate|].
+      apply IH; [unfold ZInv; rewrite zlist_advance; exact Hz1|].
+      unfold outer_measure, nonEq in *. cbn [zaft zthis zbef netot length] in *. lia. }
+    destruct z as [[bef this] aft]. rewrite pass_unfold.
+    destruct (tag_match t this) eqn:Et.
+    - assert (Hdi : is_di this) by (eapply tag_match_di; exact Et).
+      destruct (shift_up cmp repair (bef, this, aft)) as [zu| |] eqn:Eu; cbn [bind];
+        [|discriminate|exfalso; exact (Hup _ Hz Hdi Eu)].
+      assert (Hzu : ZInv m D I zu) by (eapply shift_up_inv; eassumption).
+      assert (Hdiu : is_di (zthis zu)).
+      { unfold shift_up in Eu.
+        apply (run_steps_inv (fun z' => is_di (zthis z')) (up_step cmp repair))
+          with (fuel := inner_fuel (bef, this, aft)) (z := (bef, this, aft)); [|exact Hdi|exact Eu].
+        intros z0 r Hd0 Hr. eapply is_di_tag; [apply up_step_tag; exact Hr|exact Hd0]. }
+      destruct (shift_down cmp repair zu) as [zd| |] eqn:Ed; cbn [bind];
+        [|discriminate|exfalso; exact (Hdown _ Hzu Hdiu Ed)].
+      assert (Hzd : ZInv m D I zd) by (eapply shift_down_inv; eassumption).
+      apply Htail; [exact Hzd|].
+      destruct (shift_round_measure m D I _ _ _ Hc Hz Hdi Eu Ed) as [Hle Hor].
+      destruct (ZInv_bounds _ _ _ _ Hzd) as [Ba Bn].
+      unfold outer_measure in *. cbn [zaft] in *.
+      destruct Hor as [Hlt|Hlen]; nia.
+    - cbn [bind]. apply Htail; assumption.
+  Qed.
+
+  Lemma run_pass_terminates m D I t l :
+    compat m ->
+    (forall z, ZInv m D I z -> is_di (zthis z) -> shift_up cmp repair z <> OutOfFuel) ->
+    (forall z, ZInv m D I z -> is_di (zthis z) -> shift_down cmp repair z <> OutOfFuel) ->
+    LInv m D I l -> run_pass cmp repair t l <> OutOfFuel.
+  Proof.
+    intros Hc Hup Hdown Hl. destruct l as [|x r]; cbn [run_pass]; [discriminate|].
+    apply (pass_terminates m D I t Hc Hup Hdown); [exact Hl|].
+    assert (Hz : ZInv m D I ([], x, r)) by exact Hl.
+    destruct (ZInv_bounds _ _ _ _ Hz) as [Ba Bn].
+    assert (Hw : items <= ops_weight (x :: r)).
+    { rewrite ops_weight_items. destruct Hl as ((_ & Ho & Hn) & _). unfold items. lia. }
+    unfold outer_measure, outer_fuel. cbn [zaft] in *. nia.
+  Qed.
+
+  Lemma cleanup_terminates m D I l :
+    compat m ->
+    (forall z, ZInv m D I z -> is_di (zthis z) -> shift_up cmp repair z <> OutOfFuel) ->
+    (forall z, ZInv m D I z -> is_di (zthis z) -> shift_down cmp repair z <> OutOfFuel) ->
+    LInv m D I l -> cleanup_diff_ops cmp repair l <> OutOfFuel.
+  Proof.
+    intros Hc Hup Hdown Hl. unfold cleanup_diff_ops.
+    destruct (run_pass cmp repair TDelete l) as [l1| |] eqn:E1; cbn [bind].
+    - eapply run_pass_terminates; try eassumption. eapply run_pass_inv; eassumption.
+    - discriminate.
+    - exfalso. eapply (run_pass_terminates m D I TDelete l); eassumption.
+  Qed.
+
+  Lemma cleanup_terminates_no_oof m D I l :
+    cmp_no_oof -> compat m -> LInv m D I l -> cleanup_diff_ops cmp repair l <> OutOfFuel.
+  Proof.
+    intros Hno Hc Hl. apply (cleanup_terminates m D I l Hc); [| |exact Hl].
+    - intros z _ _. apply shift_up_terminates. exact Hno.
+    - intros z _ _. apply shift_down_terminates. exact Hno.
+  Qed.
+
+  Lemma cleanup_ok m D I l :
+    cmp_total -> m <> Loose -> compat m -> LInv m D I l ->
+    exists l', cleanup_diff_ops cmp repair l = Ok l'.
+  Proof.
+    intros Htot Hm Hc Hl.
+    destruct (cleanup_diff_ops cmp repair l) as [l'| |] eqn:E.
+    - exists l'. reflexivity.
+    - exfalso. eapply cleanup_no_panic; eassumption.
+    - exfalso. revert E. apply (cleanup_terminates m D I l Hc); [| |exact Hl].
+      + intros z Hz Hdi E. destruct (shift_up_ok m D I z Htot Hm Hc (conj Hz Hdi)) as (z' & Hz' & _).
+        rewrite Hz' in E. discriminate.
+      + intros z Hz Hdi E. destruct (shift_down_ok m D I z Htot Hc (conj Hz Hdi)) as (z' & Hz' & _).
+        rewrite Hz' in E. discriminate.
+  Qed.
 End Zipper.
 
 (* ------------------------------------------------------------------ *)
@@ -1411,3 +1828,268 @@ Proof.
   assert (Hl' := cleanup_inv cmp true os oe ns ne 0 Exact _ _ _ _ compat_exact Hl Hc).
   apply walk_of_LInv in Hl'. tauto.
 Qed.
+
+Lemma OpsWalk_exact_loose cmp oe ne i j l :
+  OpsWalk cmp true oe ne i j l -> OpsWalk cmp false oe ne i j l.
+Proof.
+  induction 1 as [|i j l r Hseg Hw IH|i j l n r Hn Hb Hw IH|i j o l r Ho Hb Hw IH|i j ol nl r H1 H2 Hw IH].
+  - constructor.
+  - constructor; assumption.
+  - constructor; [discriminate|assumption|assumption].
+  - constructor; [discriminate|assumption|assumption].
+  - constructor; assumption.
+Qed.
+
+(* an exact script satisfies the stale-index invariant for every base b <= os *)
+Lemma exact_InsLow cmp oe ne i j l :
+  OpsWalk cmp true oe ne i j l -> forall e, e <= i -> InsLow e l.
+Proof.
+  induction 1 as [|i j l r Hseg Hw IH|i j l n r Hn Hb Hw IH|i j o l r Ho Hb Hw IH|i j ol nl r H1 H2 Hw IH];
+    intros e He; cbn [InsLow elen].
+  - exact I.
+  - split; [exact I|]. apply IH. lia.
+  - split; [exact I|]. apply IH. lia.
+  - split; [rewrite (Ho eq_refl); exact He|]. apply IH. lia.
+  - split; [exact I|]. apply IH. lia.
+Qed.
+
+(* ------------------------------------------------------------------ *)
+(* P3: delete_never_slides                                             *)
+(* ------------------------------------------------------------------ *)
+
+(* the suffix / prefix scan is handed the Delete's empty new range *)
+Theorem delete_scan_is_zero cmp other o l n :
+  common_suffix_len cmp (op_old_start other) (op_old_end other)
+                    (op_new_start (Delete o l n)) (op_new_end (Delete o l n)) = Ok 0 /\
+  common_prefix_len cmp (op_old_start other) (op_old_end other)
+                    (op_new_start (Delete o l n)) (op_new_end (Delete o l n)) = Ok 0.
+Proof.
+  unfold op_new_end. cbn [op_new_start op_new_len].
+  split; [apply suffix_len_empty_new|apply prefix_len_empty_new].
+Qed.
+
+(* hence the slide branches of the (Delete, Equal) arms -- including the one
+   with [len: old_range.len() - suffix_len] -- are unreachable: the arm either
+   drops an empty Equal or breaks, and never touches the ops *)
+Theorem delete_never_slides_up cmp repair po pn pl bef o l n aft :
+  up_step cmp repair (Equal po pn pl :: bef, Delete o l n, aft) =
+  if op_is_empty (Equal po pn pl)
+  then Ok (Continue (bef, Delete o l n, aft))
+  else Ok (Break (Equal po pn pl :: bef, Delete o l n, aft)).
+Proof. apply up_step_del_eq. Qed.
+
+Theorem delete_never_slides_down cmp repair bef o l n xo xn xl aft :
+  down_step cmp repair (bef, Delete o l n, Equal xo xn xl :: aft) =
+  if op_is_empty (Equal xo xn xl)
+  then Ok (Continue (bef, Delete o l n, aft))
+  else Ok (Break (bef, Delete o l n, Equal xo xn xl :: aft)).
+Proof. apply down_step_del_eq. Qed.
+
+(* ------------------------------------------------------------------ *)
+(* P4: no Panic                                                        *)
+(* ------------------------------------------------------------------ *)
+
+Theorem compact_no_panic_repair cmp os oe ns ne ops :
+  cmp_total cmp os oe ns ne ->
+  OpsWalk cmp true oe ne os ns ops ->
+  Forall NonEmptyOp ops ->
+  Forall (fun x => op_tag x <> TReplace) ops ->
+  cleanup_diff_ops cmp true ops <> Panic.
+Proof.
+  intros Htot Hw Hne Hnr.
+  assert (Hl : LInv cmp os oe ns ne 0 Exact (dtot ops) (itot ops) ops).
+  { eapply LInv_of_walk; try eassumption; [reflexivity|discriminate]. }
+  apply (cleanup_no_panic cmp true os oe ns ne 0 Exact (dtot ops) (itot ops) ops Htot); [discriminate|exact compat_exact|exact Hl].
+Qed.
+
+(* repair = false (the real code): the invariant that makes the shift_left
+   subtractions safe is InsLow: every Insert's carried old index is at least
+   b + (number of equal items before it), for some base b (b = 0 suffices). *)
+Theorem compact_no_panic_norepair cmp os oe ns ne b ops :
+  cmp_total cmp os oe ns ne ->
+  OpsWalk cmp false oe ne os ns ops ->
+  InsLow b ops ->
+  Forall NonEmptyOp ops ->
+  Forall (fun x => op_tag x <> TReplace) ops ->
+  cleanup_diff_ops cmp false ops <> Panic.
+Proof.
+  intros Htot Hw Hlow Hne Hnr.
+  assert (Hl : LInv cmp os oe ns ne b Low (dtot ops) (itot ops) ops).
+  { eapply LInv_of_walk; try eassumption; [discriminate|auto]. }
+  apply (cleanup_no_panic cmp false os oe ns ne b Low (dtot ops) (itot ops) ops Htot); [discriminate|exact compat_low|exact Hl].
+Qed.
+
+(* ... and InsLow is itself preserved by the real code *)
+Theorem compact_preserves_InsLow cmp os oe ns ne b ops ops' :
+  OpsWalk cmp false oe ne os ns ops ->
+  InsLow b ops ->
+  Forall NonEmptyOp ops ->
+  Forall (fun x => op_tag x <> TReplace) ops ->
+  cleanup_diff_ops cmp false ops = Ok ops' ->
+  InsLow b ops'.
+Proof.
+  intros Hw Hlow Hne Hnr Hc.
+  assert (Hl : LInv cmp os oe ns ne b Low (dtot ops) (itot ops) ops).
+  { eapply LInv_of_walk; try eassumption; [discriminate|auto]. }
+  assert (Hl' := cleanup_inv cmp false os oe ns ne b Low _ _ _ _ compat_low Hl Hc).
+  destruct Hl' as ((Hs & _) & _). eapply seg_low_inslow. exact Hs.
+Qed.
+
+(* in particular an exact script never makes the real code panic *)
+Corollary compact_no_panic_norepair_exact_input cmp os oe ns ne ops :
+  cmp_total cmp os oe ns ne ->
+  OpsWalk cmp true oe ne os ns ops ->
+  Forall NonEmptyOp ops ->
+  Forall (fun x => op_tag x <> TReplace) ops ->
+  cleanup_diff_ops cmp false ops <> Panic.
+Proof.
+  intros Htot Hw Hne Hnr.
+  eapply (compact_no_panic_norepair cmp os oe ns ne os); try eassumption.
+  - apply OpsWalk_exact_loose. exact Hw.
+  - eapply exact_InsLow; [exact Hw|lia].
+Qed.
+
+(* without InsLow a loose-valid script can make the real code underflow:
+   old = [a], new = [a; a], script Equal(0,0,1); Insert(old_index 0, 1, 1) *)
+Definition cx_cmp : cmpf := fun i j => if (i <? 1) && (j <? 2) then Ok true else Panic.
+Definition cx_ops : list op := [Equal 0 0 1; Insert 0 1 1].
+
+Lemma compact_loose_input_can_panic :
+  cmp_total cx_cmp 0 1 0 2 /\
+  OpsWalk cx_cmp false 1 2 0 0 cx_ops /\ Forall NonEmptyOp cx_ops /\
+  Forall (fun x => op_tag x <> TReplace) cx_ops /\
+  cleanup_diff_ops cx_cmp false cx_ops = Panic.
+Proof.
+  split; [|split; [|split; [|split]]].
+  - intros i j Hi Hj. exists true. unfold cx_cmp.
+    replace (i <? 1) with true by (symmetry; apply Nat.ltb_lt; lia).
+    replace (j <? 2) with true by (symmetry; apply Nat.ltb_lt; lia). reflexivity.
+  - unfold cx_ops. apply (OW_eq cx_cmp false 1 2 0 0 1).
+    + intros t Ht. assert (t = 0) by lia. subst t. reflexivity.
+    + apply (OW_ins cx_cmp false 1 2 1 1 0 1); [discriminate|lia|]. apply OW_nil.
+  - repeat constructor.
+  - repeat constructor; discriminate.
+  - vm_compute. reflexivity.
+Qed.
+
+(* ------------------------------------------------------------------ *)
+(* P6 (inner loops)                                                    *)
+(* ------------------------------------------------------------------ *)
+
+Theorem inner_loops_terminate cmp repair z :
+  (forall i j, cmp i j <> OutOfFuel) ->
+  shift_up cmp repair z <> OutOfFuel /\ shift_down cmp repair z <> OutOfFuel.
+Proof. intros Hc. split; [apply shift_up_terminates|apply shift_down_terminates]; exact Hc. Qed.
+
+(* ------------------------------------------------------------------ *)
+(* P5: the hook                                                        *)
+(* ------------------------------------------------------------------ *)
+
+Definition edit_call (c : call) : Prop :=
+  match c with CEq _ _ _ | CDel _ _ _ | CIns _ _ _ => True | _ => False end.
+
+Lemma emit_all_app {W} (wd : world W) a c w :
+  emit_all wd (a ++ c) w = do w1 <- emit_all wd a w; emit_all wd c w1.
+Proof.
+  revert w. induction a as [|x a IH]; intros w; cbn [app emit_all bind]; [reflexivity|].
+  destruct (emit wd x w) as [w1| |]; cbn [bind]; [apply IH|reflexivity|reflexivity].
+Qed.
+
+(* nothing reaches the inner hook while the body is being buffered *)
+Lemma compact_buffers {W} (wd : world W) cmp repair body :
+  Forall edit_call body ->
+  forall buf w,
+    emit_all (compact_world wd cmp repair) body (buf, w) = Ok (rev (capture_calls body) ++ buf, w).
+Proof.
+  induction 1 as [|c body Hc _ IH]; intros buf w; [reflexivity|].
+  cbn [emit_all]. destruct c as [o n l|o l n|o n l| |]; cbn [edit_call] in Hc; try contradiction;
+    cbn [emit compact_world compact_emit bind capture_calls call_to_op rev];
+    rewrite IH, <- app_assoc; reflexivity.
+Qed.
+
+Theorem compact_hook_spec {W} (wd : world W) cmp repair body w :
+  Forall edit_call body ->
+  emit_all (compact_world wd cmp repair) (body ++ [CFin]) ([], w) =
+  match cleanup_diff_ops cmp repair (capture_calls body) with
+  | Ok ops' =>
+      match emit_all wd (map op_to_call ops' ++ [CFin]) w with
+      | Ok w' => Ok (rev ops', w')
+      | Panic => Panic
+      | OutOfFuel => OutOfFuel
+      end
+  | Panic => Panic
+  | OutOfFuel => OutOfFuel
+  end.
+Proof.
+  intros Hb. rewrite emit_all_app, (compact_buffers wd cmp repair body Hb). cbn [bind emit_all].
+  cbn [emit compact_world compact_emit]. rewrite app_nil_r, rev_involutive.
+  destruct (cleanup_diff_ops cmp repair (capture_calls body)) as [ops'| |]; cbn [bind]; try reflexivity.
+  rewrite emit_all_app. cbn [emit_all].
+  destruct (emit_all wd (map op_to_call ops') w) as [w1| |]; cbn [bind]; try reflexivity.
+  destruct (emit wd CFin w1) as [w2| |]; reflexivity.
+Qed.
+
+(* ------------------------------------------------------------------ *)
+(* P6 (outer loop) and total correctness                               *)
+(* ------------------------------------------------------------------ *)
+
+(* the explicit fuels are sufficient on every valid script, whatever the
+   repair switch: OutOfFuel is never returned *)
+Theorem compact_terminates cmp repair os oe ns ne ops :
+  (forall i j, cmp i j <> OutOfFuel) ->
+  OpsWalk cmp false oe ne os ns ops ->
+  Forall NonEmptyOp ops ->
+  Forall (fun x => op_tag x <> TReplace) ops ->
+  cleanup_diff_ops cmp repair ops <> OutOfFuel.
+Proof.
+  intros Hno Hw Hne Hnr.
+  assert (Hl : LInv cmp os oe ns ne 0 Loose (dtot ops) (itot ops) ops).
+  { eapply LInv_of_walk; try eassumption; discriminate. }
+  eapply cleanup_terminates_no_oof; [exact Hno|apply compat_loose|exact Hl].
+Qed.
+
+Theorem compact_total_repair cmp os oe ns ne ops :
+  cmp_total cmp os oe ns ne ->
+  OpsWalk cmp true oe ne os ns ops ->
+  Forall NonEmptyOp ops ->
+  Forall (fun x => op_tag x <> TReplace) ops ->
+  exists ops', cleanup_diff_ops cmp true ops = Ok ops'.
+Proof.
+  intros Htot Hw Hne Hnr.
+  assert (Hl : LInv cmp os oe ns ne 0 Exact (dtot ops) (itot ops) ops).
+  { eapply LInv_of_walk; try eassumption; [reflexivity|discriminate]. }
+  apply (cleanup_ok cmp true os oe ns ne 0 Exact (dtot ops) (itot ops) ops Htot);
+    [discriminate|exact compat_exact|exact Hl].
+Qed.
+
+Theorem compact_total_norepair cmp os oe ns ne b ops :
+  cmp_total cmp os oe ns ne ->
+  OpsWalk cmp false oe ne os ns ops ->
+  InsLow b ops ->
+  Forall NonEmptyOp ops ->
+  Forall (fun x => op_tag x <> TReplace) ops ->
+  exists ops', cleanup_diff_ops cmp false ops = Ok ops'.
+Proof.
+  intros Htot Hw Hlow Hne Hnr.
+  assert (Hl : LInv cmp os oe ns ne b Low (dtot ops) (itot ops) ops).
+  { eapply LInv_of_walk; try eassumption; [discriminate|auto]. }
+  apply (cleanup_ok cmp false os oe ns ne b Low (dtot ops) (itot ops) ops Htot);
+    [discriminate|exact compat_low|exact Hl].
+Qed.
+
+(* ------------------------------------------------------------------ *)
+Print Assumptions compact_preserves_loose.
+Print Assumptions compact_preserves_exact.
+Print Assumptions delete_scan_is_zero.
+Print Assumptions delete_never_slides_up.
+Print Assumptions delete_never_slides_down.
+Print Assumptions compact_no_panic_repair.
+Print Assumptions compact_no_panic_norepair.
+Print Assumptions compact_preserves_InsLow.
+Print Assumptions compact_no_panic_norepair_exact_input.
+Print Assumptions compact_loose_input_can_panic.
+Print Assumptions inner_loops_terminate.
+Print Assumptions compact_hook_spec.
+Print Assumptions compact_terminates.
+Print Assumptions compact_total_repair.
+Print Assumptions compact_total_norepair.
